@@ -176,6 +176,11 @@ pub fn main_solar(args: &Args) {
                             "table": q1(e.dir[m], 100.0), "model": q1(*row.dir.get(m).unwrap_or(&f32::NAN), 100.0)}));
                         out.push(json!({"ev": "TableVsModel", "orient": orient_name(e.orientation), "month": m + 1, "what": "dif (met_monthly_data)",
                             "table": q1(e.dif[m], 100.0), "model": q1(*row.dif.get(m).unwrap_or(&f32::NAN), 100.0)}));
+                        // the reduction factors for movable shading (share of the radiation received above 200 / 300 / 500 W/m2), in units of 0.0025: the table has two decimals
+                        for (nm, tab, gen) in [("f_sh;with 200", &e.f_shwith200, &row.fshwi200), ("f_sh;with 300", &e.f_shwith300, &row.fshwi300), ("f_sh;with 500", &e.f_shwith500, &row.fshwi500)] {
+                            out.push(json!({"ev": "TableVsModel", "orient": orient_name(e.orientation), "month": m + 1, "what": nm,
+                                "table": q1(*tab.get(m).unwrap_or(&f32::NAN), 400.0), "model": q1(*gen.get(m).unwrap_or(&f32::NAN), 400.0)}));
+                        }
                     }
                 } else {
                     out.push(json!({"ev": "TableVsModel", "orient": row.name, "month": 0, "what": "no table row for this surface", "table": 0, "model": 1000000}));
